@@ -80,6 +80,18 @@ Theorem C14_stats_list_direct :
     a_out (agg_all l) (a_fold (agg_all l) rows) = map (fun p => a_out (p_agg p) (a_fold (p_agg p) rows)) l.
 Proof. exact out_all. Qed.
 
+(* sharing remark: in the model the stats of a group are VALUES (GroupedStats.merge copies every stat of the list
+   separately), so passing the same aggregate Column object twice to agg() -- as it is, under an alias, inside two
+   expressions, or after it went through another grouping -- cannot make a difference: both occurrences yield what
+   the aggregate yields alone.  That the implementation really copies per element is carried by the correspondence
+   run and the oracle on agg() lists with shared Column objects. *)
+Theorem C14_same_aggregate_twice :
+  forall Row O (p : packed Row O) (l : list (packed Row O)) rows,
+    a_out (agg_all (p :: p :: l)) (a_fold (agg_all (p :: p :: l)) rows) =
+    a_out (p_agg p) (a_fold (p_agg p) rows) :: a_out (p_agg p) (a_fold (p_agg p) rows)
+    :: a_out (agg_all l) (a_fold (agg_all l) rows).
+Proof. exact out_all_twice. Qed.
+
 (* pivot_spec: the slot of pivot value p is the fold over the group's rows whose pivot column equals p ... *)
 Theorem C14_pivot_spec :
   forall (Row P S O : Type) (peqb : P -> P -> bool) (pv_of : Row -> P) (A : aggregator Row S O) pvs rows,
